@@ -85,7 +85,7 @@ pub struct Case {
 impl Case {
     pub fn parse(line: &str) -> Option<Case> {
         let t: Vec<&str> = line.trim().split(' ').collect();
-        if t.len() != 9 || (t[0] != "R" && t[0] != "A") {
+        if t.len() != 9 || (t[0] != "R" && t[0] != "A" && t[0] != "F") {
             return None;
         }
         let script = if t[5] == "-" {
@@ -96,6 +96,7 @@ impl Case {
                     let (c, r) = e.split_at(1);
                     match c {
                         "i" => Some(ReadEv::Intr),
+                        "z" => Some(ReadEv::Zero),
                         "d" => r.parse().ok().map(ReadEv::Data),
                         "f" => r.parse().ok().map(ReadEv::Fail),
                         _ => None,
@@ -140,6 +141,7 @@ impl Case {
                 .map(|e| match e {
                     ReadEv::Data(n) => format!("d{}", n),
                     ReadEv::Intr => "i".to_string(),
+                    ReadEv::Zero => "z".to_string(),
                     ReadEv::Fail(k) => format!("f{}", k),
                 })
                 .collect::<Vec<_>>()
@@ -238,12 +240,13 @@ fn fa_rec(r: &fasta::RefRecord) -> String {
             Err(_) => true,
         };
     format!(
-        "h={}:l={}:r={}:n={}:b={}:u={}:i={}:d={}:v={}{}",
+        "h={}:l={}:r={}:n={}:b={}:o={}:u={}:i={}:d={}:v={}{}",
         hex(r.head()),
         lines,
         hex(r.seq()),
         n,
         if b { 1 } else { 0 },
+        hex(&r.owned_seq()),
         hex(&u),
         hex(idb),
         match descb {
